@@ -6,6 +6,7 @@ CONSTANTS
   MaxCalls = 2
   MaxExpire = 1
   Kinds = {"lookup", "dial"}
+  ZeroDuration = FALSE
   Faults = TRUE
 VIEW View
 INVARIANTS TypeOK SizeBound ServedFreshAndSequential NoCrossHost RefinesSequential MissReturnsOwnAnswer MutexDiscipline
